@@ -73,10 +73,20 @@ class Lock:
 # Coq build
 # ----------------------------------------------------------------------------
 
+def ready_props():
+    p = os.path.join(VERIF, "manifest.d", "READY")
+    if os.path.exists(p):
+        return sorted(set(open(p).read().split()))
+    return sorted(os.path.basename(f)[:-2] for f in glob.glob(os.path.join(TH, "Props", "C*.v")))
+
+
 def coq_files():
-    out = []
-    for sub in ("Lib", "Model", "Proofs", "Props"):
-        out += sorted(glob.glob(os.path.join(TH, sub, "*.v")))
+    """Everything the claimed properties' Props files depend on (transitively), plus all of Lib."""
+    out = sorted(glob.glob(os.path.join(TH, "Lib", "*.v")))
+    for pid in ready_props():
+        for f in deps_of(pid):
+            if f not in out:
+                out.append(f)
     return out
 
 
@@ -140,7 +150,7 @@ def build_driver(pid, force=False):
 
 
 def all_props():
-    return sorted(os.path.basename(f)[:-2] for f in glob.glob(os.path.join(TH, "Props", "C*.v")))
+    return ready_props()
 
 
 def setup():
